@@ -21,6 +21,9 @@ def check_bytes(data: bytes, which=("C01", "C04")):
 
     if not data:
         return "empty"
+    from pv import core
+
+    core.note_input(len(data) + 16)  # the step count (core._count_library_steps) needs the size of what the library is handed
     if tuple(which) == ("C06",):
         return check_c06(data)
     if tuple(which) == ("C12",):
